@@ -62,8 +62,18 @@ def main(tier):
         tried, caught = 0, None
         cand = [(k, p) for k in range(5, len(good["steps"])) for p in leaves(good["steps"][k]["o"])]
         r.shuffle(cand)
+        # stratified by the KIND of output (path without indices), so that wide data words - mostly unconstrained
+        # while no strobe is active - do not crowd out strobes, acknowledges and single lines
+        groups = {}
+        for (k, p) in cand:
+            groups.setdefault(tuple(x for x in p if isinstance(x, str)), []).append((k, p))
+        picked = []
+        while len(picked) < 40 and any(groups.values()):
+            for g in sorted(groups):
+                if groups[g] and len(picked) < 40:
+                    picked.append(groups[g].pop())
         batch, meta = [], []
-        for (k, p) in cand[:40]:
+        for (k, p) in picked:
             t2 = {"cfg": good["cfg"], "steps": copy.deepcopy(good["steps"])}
             flip(t2["steps"][k]["o"], p)
             batch.append(t2)
